@@ -150,6 +150,9 @@ MUTANTS = [
     M("ks-new-encryptor-per-read", UP,
       "        if self._encryptor:\n            return defer.succeed(self._encryptor)\n\n        d = self.original.get_encryption_key()\n",
       "        d = self.original.get_encryption_key()\n", "C44.9"),
+    M("ks-conditional-expression", UP,
+      "            ciphertext = aes.encrypt_data(self._encryptor, chunk)\n            if hash_only:\n",
+      "            ciphertext = None if hash_only else aes.encrypt_data(self._encryptor, chunk)\n            if hash_only:\n", "C44.9"),
     # -- C44.10 failure is reported and deregistered
     M("fail-closes-unstarted-reader", OFF,
       "                 level=log.UNUSUAL)\n        self._finished_observers.fire(f)\n",
@@ -260,6 +263,12 @@ MUTANTS = [
     M("benign-deregister-with-pop", OFF,
       "        uh = self._active_uploads[storage_index]\n        del self._active_uploads[storage_index]\n",
       "        uh = self._active_uploads.pop(storage_index)\n", None),
+    M("benign-ks-action-as-lambda", UP,
+      "        d.addCallback(lambda ignored: until(action, condition))\n",
+      "        d.addCallback(lambda ignored: until(lambda: self._read_encrypted(accum, hash_only), condition))\n", None),
+    M("benign-ks-callback-renamed", UP,
+      "            ciphertext_accum.extend(size, ct)\n        d.addCallback(_good)\n",
+      "            ciphertext_accum.extend(size, ct)\n        _encrypt_chunk = _good\n        d.addCallback(_encrypt_chunk)\n", None),
     # -- vanished anchor
     M("vanish-start-reading", OFF, "    def _start_reading(self, res):", "    def _start_readingX(self, res):", "ANALYSIS-ERROR"),
 ]
